@@ -126,7 +126,7 @@ Definition c_get_tuples (e : endian) (a : pkt_addrs) (sport_b dport_b : list N) 
    the function clears it first is read from the source on every run (gen: c_reversed_memset). *)
 Definition seg (off len : nat) (m : list N) : list N := firstn len (skipn off m).
 Definition c_copy_reversed (prior key : list N) : list N :=
-  let m := if c_reversed_memset then zeros size_tk_c else prior in          (* __builtin_memset(dst, 0, sizeof(*dst)) *)
+  let m := if c_reversed_memset then zeros size_tk_c else prior in          (* memset dst to 0, whole struct *)
   let m := write off_tk_c_dip8 (seg off_tk_c_sip8 16 key) m in                 (* dst->dip = key->sip *)
   let m := write off_tk_c_sip8 (seg off_tk_c_dip8 16 key) m in                 (* dst->sip = key->dip *)
   let m := write off_tk_c_sport (seg off_tk_c_dport 2 key) m in                (* dst->sport = key->dport *)
